@@ -1,9 +1,15 @@
 #!/bin/sh
 # seedrun.sh <patch.diff> <property-id> [tier] — apply a seeded change to /repo, run the property's check, undo the change.
+# The evidence file of the property is put back afterwards: evidence describes runs on /repo itself, not on a changed tree.
 P=$1; ID=$2; TIER=${3:-quick}
 git -C /repo diff --quiet -- include || { echo "/repo has local changes; refusing"; exit 2; }
+EV=/verif/evidence/$ID.json
+SAVE=/verif/.cache/evidence-$ID.saved
+mkdir -p /verif/.cache
+[ -f "$EV" ] && cp "$EV" "$SAVE"
 git -C /repo apply "$P" || { echo APPLY-FAILED; exit 2; }
 cd /verif && ./check "$ID" "$TIER"; RC=$?
 git -C /repo checkout -- .
 python3 /verif/tools/regen.py >/dev/null 2>&1
+[ -f "$SAVE" ] && mv "$SAVE" "$EV"
 echo "exit=$RC"
